@@ -194,9 +194,12 @@ let () =
             if not !skip && !verdict = None then begin
               (* correspondence: model step from the implementation's pre-state *)
               let candidates =
-                if c.pol = Random then
+                (* Random: any queue position; LFU/ARC/TLRU: ties are broken arbitrarily, the
+                   model accepts any minimiser named by the choices *)
+                if c.pol = Random || c.pol = LFU || c.pol = ARC || c.pol = TLRU then
                   let rem = List.map int_of_n (removed { ob_pre = pre_st; ob_now = now; ob_op = o; ob_out = OUnit; ob_post = post_st }) in
-                  if List.length rem <= 5 then perms rem else [rem]
+                  let ps = if List.length rem <= 5 then perms rem else [rem] in
+                  if c.pol = Random then ps else [] :: ps
                 else [[]] in
               let results = List.map (fun ch ->
                   let (s', r) = step c now pre_st o (List.map n_of_int ch) in
